@@ -74,7 +74,11 @@ def handle (s : S) (i : Nat) (j : Json) : S × List Json :=
       (match res.find? (fun r => rejected.isEmpty && (r.2.1.bal != (((o.find? (fun e => e.1 == r.1)).map (·.2.bal)).getD 0))) with
        | some r => [verdictDiff i "masterchefBalance" (Json.mkObj [("denom", r.1), ("val", mkInt r.2.1.bal)]) (Json.mkObj [("val", mkInt (((o.find? (fun e => e.1 == r.1)).map (·.2.bal)).getD 0))])]
        | none => [])
-    let viols := (match o.find? (fun e => !solventB { e.2 with reserved := 0 }) with
+    let viols :=
+      -- "the total credited for a block never exceeds what was collected or funded for that block"
+      (if rejected.any (fun r => (r.splitOn "overCredit").length > 1 || (r.splitOn "noReserve").length > 1) then
+        [verdictViol i "C13.block_credit" (Json.mkObj [("rejectedSteps", Json.arr (rejected.map Json.str).toArray)])] else []) ++
+      (match o.find? (fun e => !solventB { e.2 with reserved := 0 }) with
       | some e => [verdictViol i "C13.solvent" (Json.mkObj [("denom", e.1), ("moduleBalance", mkInt e.2.bal), ("creditedUnclaimedRaw", mkInt e.2.owed),
                      ("shortfallTokens", mkInt ((e.2.owed - e.2.bal * P + P - 1) / P))])]
       | none => [])
